@@ -870,6 +870,109 @@ func Generate(r *rand.Rand, profile string, concurrent bool, av Avoid) *Plan {
 		ops = append(ops, frag...)
 		p.Ops = append(ops, p.Ops[at:]...)
 	}
+	// Directed fragment (scale x refresh x overlap): a channel that holds 50-57
+	// thousand bound keys is refreshed; five keyed calls start a few scheduling
+	// decisions before the replacement's READY report and run beside it. The
+	// channel is READY before, during and after the takeover: they go there.
+	if (profile == "refresh" || profile == "affinity") && !concurrent && !p.Cfg.RR && (r.IntN(300) == 0 || os.Getenv("SIM_FORCE_MASS") == "3") && !kern.RaceBuild && !extremeWin && (p.Cfg.Locator == 2 || p.Cfg.Locator == 3) && len(p.Ops) > 4 {
+		p.Cfg.Min, p.Cfg.Max = 2, 2
+		if p.Cfg.UMs == 0 || p.Cfg.UCalls == 0 || p.Cfg.UMs > 1000 {
+			p.Cfg.UMs, p.Cfg.UCalls = uint32(10*(1+r.IntN(5))), uint32(1+r.IntN(2))
+		}
+		if p.Cfg.WM != 0 && p.Cfg.WM < 8 {
+			p.Cfg.WM = 8
+		}
+		n := int(p.Cfg.UCalls)
+		frag := []Op{{K: OpConn, A: 0, B: ConnProgress}, {K: OpConn, A: 0, B: ConnProgress}, {K: OpConn, A: 1, B: ConnProgress}, {K: OpConn, A: 1, B: ConnProgress}}
+		total := 50000 + r.IntN(7000)
+		base := 20000
+		var all []int
+		for len(all) < total {
+			m := 600 + r.IntN(300)
+			ks := make([]int, m)
+			for j := range ks {
+				ks[j] = base + j
+			}
+			base += m
+			all = append(all, ks...)
+			frag = append(frag, Op{K: OpPick, B: MBind, Keys: []int{0}}, Op{K: OpDone, A: -1, B: OutOK, Keys: ks})
+		}
+		km := all[len(all)-1]
+		for c := 0; c < n; c++ {
+			frag = append(frag, Op{K: OpPick, B: MBound, Keys: []int{km}, D: 1, E: 1})
+		}
+		frag = append(frag, Op{K: OpAdvance, E: int(p.Cfg.UMs) + 2})
+		for c := 0; c < n; c++ {
+			frag = append(frag, Op{K: OpDone, A: -1, B: OutClientDE})
+		}
+		frag = append(frag, Op{K: OpConn, A: -1, B: ConnProgress})
+		for c := 0; c < 5; c++ {
+			// (a keyed pick reaches the balancer's key table within a handful of
+			// scheduling decisions: hardly any head start, or it is over too early)
+			frag = append(frag, Op{K: OpPick, B: MBound, Keys: []int{all[r.IntN(len(all))]}, F: FlagOverlap, N: r.IntN(3)})
+		}
+		frag = append(frag, Op{K: OpConn, A: -1, B: ConnProgress},
+			Op{K: OpPick, B: MBound, Keys: []int{all[r.IntN(len(all))]}}, Op{K: OpPick, B: MBound, Keys: []int{km}})
+		p.MassKeys = true
+		at := 1
+		ops := append([]Op{}, p.Ops[:at]...)
+		ops = append(ops, frag...)
+		p.Ops = append(ops, p.Ops[at:]...)
+	}
+	// Directed fragment (fallback x affinity x refresh): a key is unbound through
+	// its stand-in while its home is down; later the stand-in's connection is
+	// refreshed (every READY channel is, their calls all run into the deadline);
+	// the key is bound again and its new home goes down too: calls for it need a
+	// stand-in again, and there are READY channels. Steps are left out at random.
+	if profile == "fallback" && !concurrent && !p.Cfg.RR && r.IntN(12) == 0 && len(p.Ops) > 4 {
+		p.Cfg.Fallback = true
+		p.Cfg.Min, p.Cfg.Max = 3, 3
+		if p.Cfg.UMs == 0 || p.Cfg.UCalls == 0 || p.Cfg.UMs > 1000 {
+			p.Cfg.UMs, p.Cfg.UCalls = uint32(10*(1+r.IntN(5))), uint32(1+r.IntN(2))
+		}
+		if p.Cfg.WM != 0 && p.Cfg.WM < 8 {
+			p.Cfg.WM = 8
+		}
+		k := r.IntN(nKeys)
+		n := int(p.Cfg.UCalls)
+		opt := func() bool { return r.IntN(5) > 0 }
+		var frag []Op
+		for c := 0; c < 3; c++ {
+			frag = append(frag, Op{K: OpConn, A: c, B: ConnProgress}, Op{K: OpConn, A: c, B: ConnProgress})
+		}
+		frag = append(frag, Op{K: OpPick, B: MBind, Keys: []int{0}}, Op{K: OpDone, A: -1, B: OutOK, Keys: []int{k}},
+			Op{K: OpConn, A: -4, B: ConnFail}) // the key's home goes down
+		if opt() {
+			frag = append(frag, Op{K: OpPick, B: MBound, Keys: []int{k}}, Op{K: OpDone, A: -1, B: OutOK})
+		}
+		if opt() {
+			frag = append(frag, Op{K: OpPick, B: MUnbind, Keys: []int{k}}, Op{K: OpDone, A: -1, B: OutOK})
+		}
+		if opt() {
+			// both READY channels turn unresponsive and are refreshed
+			for c := 0; c < 2*n; c++ {
+				frag = append(frag, Op{K: OpPick, B: MPlain, D: 1, E: 1})
+			}
+			frag = append(frag, Op{K: OpAdvance, E: int(p.Cfg.UMs) + 2})
+			for c := 0; c < 2*n; c++ {
+				frag = append(frag, Op{K: OpDone, A: -1, B: OutClientDE})
+			}
+			for c := 3; c < 5; c++ {
+				frag = append(frag, Op{K: OpConn, A: c, B: ConnProgress}, Op{K: OpConn, A: c, B: ConnProgress})
+			}
+		}
+		if opt() {
+			frag = append(frag, Op{K: OpConn, A: 0, B: ConnProgress}, Op{K: OpConn, A: 0, B: ConnProgress},
+				Op{K: OpConn, A: 1, B: ConnProgress}, Op{K: OpConn, A: 2, B: ConnProgress}) // whichever was down comes back
+		}
+		frag = append(frag, Op{K: OpPick, B: MBind, Keys: []int{0}}, Op{K: OpDone, A: -1, B: OutOK, Keys: []int{k}},
+			Op{K: OpConn, A: -4, B: ConnFail}, // the new home goes down
+			Op{K: OpPick, B: MBound, Keys: []int{k}}, Op{K: OpPick, B: MBound, Keys: []int{k}})
+		at := 1
+		ops := append([]Op{}, p.Ops[:at]...)
+		ops = append(ops, frag...)
+		p.Ops = append(ops, p.Ops[at:]...)
+	}
 	// Directed fragment (scale): more than four thousand keys live on stand-ins
 	// at once. A victim key is bound, then thousands more (BIND replies with a
 	// repeated key field); their home goes down (or is shut down under the pool
@@ -1144,6 +1247,35 @@ func Generate(r *rand.Rand, profile string, concurrent bool, av Avoid) *Plan {
 		r.Shuffle(len(tail), func(a, b int) { tail[a], tail[b] = tail[b], tail[a] })
 		frag = append(frag, tail...)
 		frag = append(frag, Op{K: OpSteps, A: 60})
+		at := 1
+		ops := append([]Op{}, p.Ops[:at]...)
+		ops = append(ops, frag...)
+		p.Ops = append(ops, p.Ops[at:]...)
+	}
+	// Directed concurrent fragment: two or three READY channels, all one stream
+	// below the watermark, room to grow, nothing connecting; then calls on a
+	// superseded picker (as good as the latest) and on the latest one at once: two
+	// of them may fill one channel, none of them finds every channel saturated
+	// while another one is still a stream short - no channel may be added.
+	if concurrent && (profile == "growth" || profile == "load") && !p.Cfg.RR && r.IntN(4) == 0 && len(p.Ops) > 4 {
+		n := 2 + r.IntN(2)
+		wm := 2 + r.IntN(2)
+		p.Cfg.Min, p.Cfg.Max, p.Cfg.WM = uint32(n), uint32(n+2), uint32(wm)
+		st := func() int { return r.IntN(6) }
+		frag := []Op{}
+		for c := 0; c < n; c++ {
+			frag = append(frag, Op{K: OpConn, A: c, B: ConnProgress}, Op{K: OpConn, A: c, B: ConnProgress})
+		}
+		frag = append(frag, Op{K: OpSteps, A: 60})
+		for c := 0; c < n*(wm-1); c++ {
+			frag = append(frag, Op{K: OpPick, B: MPlain, N: 30}) // held: least-loaded placement spreads them evenly
+		}
+		// more publications with the same READY set
+		frag = append(frag, Op{K: OpConn, A: 0, B: ConnFail, N: 30}, Op{K: OpConn, A: 0, B: ConnProgress, N: 30}, Op{K: OpConn, A: 0, B: ConnProgress, N: 30}, Op{K: OpSteps, A: 60})
+		for c := 0; c < n-1; c++ {
+			frag = append(frag, Op{K: OpPick, B: MPlain, C: 1 + r.IntN(2), N: st()}, Op{K: OpPick, B: MPlain, N: st()})
+		}
+		frag = append(frag, Op{K: OpSteps, A: 80})
 		at := 1
 		ops := append([]Op{}, p.Ops[:at]...)
 		ops = append(ops, frag...)
